@@ -900,7 +900,7 @@ func (vfs *MemFS) Symlink(oldname, newname string) error {
 	const op = "symlink"
 
 	parent, _, pi, nerr := vfs.searchNode(newname, slmLstat)
-	if !vfs.isNotExist(nerr) {
+	if !vfs.isNotExist(nerr) || !pi.IsLast() {
 		return &os.LinkError{Op: op, Old: oldname, New: newname, Err: nerr}
 	}
 
